@@ -1469,15 +1469,13 @@ aiff_write_header (SF_PRIVATE *psf, int calc_length)
 	if (psf->channel_map && paiff->chanmap_tag)
 		psf_binheader_writef (psf, "Em4444", BHWm (CHAN_MARKER), BHW4 (12), BHW4 (paiff->chanmap_tag), BHW4 (0), BHW4 (0)) ;
 
-	/* Check if there's a INST chunk to write */
-	if (psf->instrument != NULL && psf->cues != NULL)
-	{	/* Huge chunk of code removed here because it had egregious errors that were
-		** not detected by either the compiler or the tests. It was found when updating
-		** the way psf_binheader_writef works.
-		*/
-		}
-	else if (psf->instrument == NULL && psf->cues != NULL)
-	{	/* There are cues but no loops */
+	/* The INST chunk is not written : a huge chunk of code was removed here because it had
+	** egregious errors that were not detected by either the compiler or the tests. It was
+	** found when updating the way psf_binheader_writef works.
+	** The cue points are written whether or not an instrument was set as well.
+	*/
+	if (psf->cues != NULL)
+	{	/* There are cues (the loops of an instrument are not stored). */
 		uint32_t idx ;
 		int totalStringLength = 0, stringLength ;
 
